@@ -1,7 +1,7 @@
 ---------------------------- MODULE SessionTrace ----------------------------
 (* judge of recorded histories: record = [hist, results, shareds, base, shared0]; step i is a Do(hist[i]) step of       *)
 (* Session.tla iff results[i] = base[hist[i]] (the result of that operation alone in a fresh process) and the digest   *)
-(* of the shared tables is still shared0.                                                                              *)
+(* of the shared tables is what it was before the step (shared0 at the start): no operation moves it.                 *)
 EXTENDS Integers, Sequences, TLC, Json, IOUtils, TLCExt
 Traces == ndJsonDeserialize(IOEnv.TRACE_FILE)
 VARIABLES tid, i, bad
@@ -11,7 +11,9 @@ V(clause, want, got) == [tid |-> tid, clause |-> clause, step |-> i, op |-> R.hi
 TInit == tid = 1 /\ i = 1 /\ bad = <<>>
 TStep == /\ tid <= Len(Traces) /\ i <= Len(R.hist)
          /\ bad' = bad \o (IF R.results[i] # R.base[R.hist[i]] THEN <<V("C18.result_depends_on_history", R.base[R.hist[i]], R.results[i])>> ELSE <<>>)
-                       \o (IF R.shareds[i] # R.shared0 THEN <<V("C18.shared_tables_changed", R.shared0, R.shareds[i])>> ELSE <<>>)
+                       \* the operation after which the digest moved is the one named (the state before it: shared0 or the digest of step i-1)
+                       \o (LET before == IF i = 1 THEN R.shared0 ELSE R.shareds[i - 1] IN
+                           IF R.shareds[i] # before THEN <<V("C18.shared_tables_changed", before, R.shareds[i])>> ELSE <<>>)
          /\ i' = i + 1 /\ UNCHANGED tid
 TNext == /\ tid <= Len(Traces) /\ i > Len(R.hist)
          /\ \A j \in 1..Len(bad) : PrintT(<<"V", ToJson(bad[j])>>)
